@@ -305,6 +305,12 @@ def gen_hints(rng, mode=None):
         qrh, sigh, rrh, odh = 0, 0, 0, 0
     elif mode == "sections":
         qrh = (ALL_QRH & ~0x3F800) | (rng.getrandbits(7) << 11)
+    elif mode == "wide":
+        # the whole declared width of each hint, unassigned bits included
+        w32 = lambda: rng.choice([0xFFFFFFFF, 0x80000000, 0x7FFFFFFF, rng.getrandbits(32), rng.getrandbits(32) | 0x80000000,
+                                  1 << rng.randrange(32)])
+        w8 = lambda: rng.choice([0xFF, 0x80, 0x7F, rng.getrandbits(8), 1 << rng.randrange(8)])
+        qrh, sigh, rrh, odh = w32(), w32(), w8(), w8()
     return qrh, sigh, rrh, odh
 
 
